@@ -64,6 +64,7 @@ class Context(object):
     self.distinct = set()
     self.samples = []
     self.violations = []       # (signature, replay dict)
+    self._per_sig = {}
     self.known_hits = {}       # what -> count
     self.known = load_known(pid)
     self.notes = {}
@@ -98,10 +99,11 @@ class Context(object):
         w = e["what"]
         self.known_hits[w] = self.known_hits.get(w, 0) + 1
         return "known"
-    if len(self.violations) < 50:
-      self.violations.append((sig, replay))
-    else:
-      self.violations.append((sig, None))
+    # keep replay data for the first few failures of every distinct signature
+    k = canon(sig)
+    n = self._per_sig.get(k, 0)
+    self._per_sig[k] = n + 1
+    self.violations.append((sig, replay if n < 2 else None))
     return "violation"
 
   def finish(self):
@@ -120,7 +122,7 @@ class Context(object):
           continue
         seen.add(s)
         k += 1
-        if k > 10:
+        if k > 25:
           break
         path = os.path.join(REPLAYS, "%s-%s.json" % (self.pid, fp(sig)))
         with open(path, "w") as f:
